@@ -19,3 +19,9 @@ pub use crdt::{
     StateChangeResult,
 };
 pub use member::GroupMember;
+
+/// Verification-only access to the crate-private membership state functions.
+#[cfg(p2panda_p2panda_verif)]
+pub mod verif {
+    pub use super::crdt::state::{add, create, demote, merge, promote, remove};
+}
